@@ -162,7 +162,8 @@ def _loop_body_order_sensitivity(prog: Prog, fn: Fn, loop: ast.AST, body: list[a
                     if m == "remove_node" and n.args:
                         x = u(n.args[0])
                         facts = flow(prog, fn).facts_for(n)
-                        if any(p and t in (f"g.degree[{x}] == 0", f"g.degree({x}) == 0") for t, p in facts):
+                        import re as _re
+                        if any(p and _re.fullmatch(r"\w+\.degree[\[(]" + _re.escape(x) + r"[\])] == 0", t) for t, p in facts):
                             continue  # removing isolated nodes commutes: no other node's degree changes
                     return f"`{u(n)[:50]}` does not commute with itself across iterations"
     return None
